@@ -19,17 +19,24 @@ AREAS = {
 }
 props = {json.loads(l)["id"]: json.loads(l) for l in open(os.path.join(VERIF, "properties.jsonl"))}
 tmpl = open(os.path.join(VERIF, "tools", "benign_prompt.md")).read()
-os.makedirs("/tmp/mutb", exist_ok=True)
-os.makedirs("/tmp/wtb", exist_ok=True)
+RND = os.environ.get("BENIGN_ROUND", "")
+OUT, WT = "/tmp/mutb" + RND, "/tmp/wtb" + RND
+os.makedirs(OUT, exist_ok=True)
+os.makedirs(WT, exist_ok=True)
+prev_meta = json.load(open(os.path.join(VERIF, "benign", "sa-meta.json"))) if os.path.exists(os.path.join(VERIF, "benign", "sa-meta.json")) else {}
 for area, (files, pids) in AREAS.items():
     if sys.argv[1:] and area not in sys.argv[1:]:
         continue
-    json.dump([{k: props[p][k] for k in ("id", "title", "statement")} for p in pids], open("/tmp/mutb/props_%s.json" % area, "w"), indent=1)
-    open("/tmp/mutb/PROMPT_%s.md" % area, "w").write(tmpl.replace("{AREA}", area).replace("{FILES}", ", ".join(files)))
-    w = "/tmp/wtb/%s" % area
+    json.dump([{k: props[p][k] for k in ("id", "title", "statement")} for p in pids], open("%s/props_%s.json" % (OUT, area), "w"), indent=1)
+    txt = tmpl.replace("/tmp/wtb/", WT + "/").replace("/tmp/mutb/", OUT + "/").replace("{AREA}", area).replace("{FILES}", ", ".join(files))
+    done = [v for k, v in sorted(prev_meta.items()) if k.startswith("sa-%s-" % area) or k.startswith("sb-%s-" % area)]
+    if done:
+        txt += "\nThe following refactors were already made in this area by other people: do NOT repeat them (nor the same idea on the same function); choose other functions and other kinds of transformation:\n" + "\n".join("  - [%s] %s" % (d.get("kind"), (d.get("summary") or "")[:260].replace("\n", " ")) for d in done) + "\n"
+    open("%s/PROMPT_%s.md" % (OUT, area), "w").write(txt)
+    w = "%s/%s" % (WT, area)
     if not os.path.exists(w):
         subprocess.run(["git", "-C", "/repo", "worktree", "remove", "--force", w], stdout=subprocess.DEVNULL, stderr=subprocess.DEVNULL)
         subprocess.check_call(["git", "-C", "/repo", "worktree", "add", "-q", "--detach", w, "HEAD"])
     for k in "12345":
-        os.makedirs("/tmp/mutb/%s/%s" % (area, k), exist_ok=True)
+        os.makedirs("%s/%s/%s" % (OUT, area, k), exist_ok=True)
     print("prepared", area)
